@@ -373,7 +373,11 @@ def epcChecks (tr : Bool) (a : EpcArgs) : List (String × Bool) :=
   let k := match req with | .ok r => epcCharset r a.can | .error _ => 1
   let fields := [bic, name, iban, purpose, ref] ++ (if text.isEmpty then [] else [text])
   let flen := (fields.map (fun s => if k == 1 then utf8Len s else s.length)).sum
-  let cents := if a.amount.den == 0 then 0 else (100 * a.amount.num + a.amount.den / 2) / a.amount.den
+  -- nearest cent, ties to even (what `'{:.2f}'.format(Decimal)` does; a half-up judge would count a longer text at x.y05)
+  let cents := if a.amount.den == 0 then 0 else
+    let q := 100 * a.amount.num / a.amount.den
+    let r := 100 * a.amount.num % a.amount.den
+    if 2 * r > a.amount.den then q + 1 else if 2 * r < a.amount.den then q else (if q % 2 == 0 then q else q + 1)
   -- BCD 002 k SCT + amount + one LF between consecutive lines
   let total := 3 + 3 + 1 + 3 + amountText cents + flen + (4 + fields.length)
   [("name-length", a.name.isNone || name.length < 1 || name.length > 70),
